@@ -53,6 +53,9 @@ def scenarios_for(prop, tier, rng):
             tm = agentgen.tamper_scenarios(prop)
             sc += tm
             counts["tampered_after_own_install"] = len(tm)
+            rf = agentgen.c02_fault_scenarios(prop)
+            sc += rf
+            counts["installed_policies_with_the_router_refusing_the_open_or_a_load"] = len(rf)
         if prop == "C01":
             fc = [c for c in fc if c["target"] in ("load", "commit", "none") and c["kind"] in ("rpc-error", "no-ok", "none", "delayed-error")]
             sc += agentgen.fault_scenarios(fc, prop)
